@@ -231,6 +231,8 @@ func fFromInt(t *Term, signed bool) *FloatV {
 		m = SExt(t, 64)
 		if t.hi <= mask(t.W-1) {
 			nb = bits.Len64(t.hi)
+		} else if sb := signedBits(t, 0); sb < nb {
+			nb = sb
 		}
 	} else {
 		m = ZExt(t, 64)
@@ -324,4 +326,51 @@ func fToFloat32(a *FloatV) *FloatV {
 		unsup("float32 rounding of symbolic value with >24 mantissa bits")
 	}
 	return a
+}
+
+// signedBits returns n such that the signed value of t lies in (-2^n, 2^n).
+func signedBits(t *Term, depth int) int {
+	if depth > 30 {
+		return t.W
+	}
+	if t.hi <= mask(t.W-1) && t.W > 0 {
+		return bits.Len64(t.hi)
+	}
+	r := t.W
+	switch t.Op {
+	case OpConst:
+		r = bitlenI(sext(t.V, t.W))
+	case OpSExt:
+		r = signedBits(t.A, depth+1)
+	case OpZExt:
+		r = t.A.W
+	case OpAdd, OpSub:
+		a, b := signedBits(t.A, depth+1), signedBits(t.B, depth+1)
+		if b > a {
+			a = b
+		}
+		r = a + 1
+	case OpMul:
+		r = signedBits(t.A, depth+1) + signedBits(t.B, depth+1)
+	case OpIte:
+		a, b := signedBits(t.B, depth+1), signedBits(t.C, depth+1)
+		if b > a {
+			a = b
+		}
+		r = a
+	case OpAShr:
+		if t.B.IsConst() {
+			r = signedBits(t.A, depth+1) - int(t.B.V)
+			if r < 1 {
+				r = 1
+			}
+		}
+	case OpConcat:
+		// sign carried by the top part
+		r = signedBits(t.A, depth+1) + t.B.W
+	}
+	if r > t.W {
+		r = t.W
+	}
+	return r
 }
